@@ -116,7 +116,7 @@ func init() {
 			cases = append(cases, hand...)
 			attrVariants := [][]UAttr{{}, {{"XA", "b2"}, {"XB", "#11"}}, {{"XA", "b2"}, {"", "3"}}}
 			type nd struct{ n, d string }
-			names := []nd{{"U1", "u1"}, {"U2", "u2"}, {"MinorTriad", "m"}}
+			names := []nd{{"U1", "u1"}, {"U2", "u2"}, {"MinorTriad", "m"}, {"U7", "sus2"}} // U7: a fresh name taking over a built-in display
 			exts := []string{"", "U1", "U2", "u1", "MajorTriad", "m7", "MinorSeventh", "Ghost"}
 			attrSets := [][]string{nil, {"XA"}, {"Perfect5", "Major9"}, {"GhostAttr"}, {"Major3", "Major3"}}
 			pool := []UChord{}
